@@ -59,6 +59,7 @@ def run(repo, rep, tier):
     rep.undecided = ["equivalence of the published recipes with the tabular Computus / Hebrew calendar (trusted)", "month lengths 29/30 and year lengths 354/355", "bijection on days / epoch 16 July 622"]
     recipes(repo, rep)
     moslem_carry(repo, rep)
+    daycount(repo, rep)
     stale_param(repo, rep)
     century_ctrl(repo, rep)
     thresh_gap(repo, rep)
@@ -67,6 +68,73 @@ def run(repo, rep, tier):
     effects.check_functions(repo, rep, fam)
     guards.check_functions(repo, rep, fam)
     return "other"
+
+
+def daycount(repo, rep):
+    """R-DAYCOUNT: gregorian2moslem first turns the civil date into a running day count INT(365.25 x) + INT(30.6001 (m+1)) + d
+    + century correction + const (x, m shifted for January/February).  That count is an integer recipe in (year, month, day):
+    it is executed exactly on every class of civil date - each month, every residue of the year modulo 400 over two cycles
+    (Gregorian) and modulo 4 (Julian), two days - and must differ from the calendar's own ordinal by one constant, i.e. grow
+    by one per civil day.  A correction taken from the unshifted year, a wrong month shift etc. break that in some class."""
+    import datetime as _dt
+    from ..rules import eval_exact, NotEvaluable
+    from .c16 import stdlib_prims
+    rep.rule("R-DAYCOUNT", "the day count built by gregorian2moslem equals the calendar ordinal plus one constant on every class of civil date "
+                           "(month x year mod 400 over two cycles, Julian years mod 4)")
+    q = "Epoch.gregorian2moslem"
+    site = MOD + "." + q
+    fn = repo.func(MOD, q)
+    nm = [a.arg for a in fn.args.args]
+    Y, M, D = T.sym("NUM_Y"), T.sym("NUM_M"), T.sym("NUM_D")
+    t = ret_term(repo, MOD, q, arg_terms={nm[0]: Y, nm[1]: M, nm[2]: D})
+
+    def scaled_floor(x, k):
+        return x[0] == "call" and x[1] in ("int", "floor") and len(x) == 3 and x[2][0] == "mul" and T.num(Fraction(k)) in x[2][1:]
+
+    def direct(x):
+        """only the civil date enters: no floor of a floor-sum (which would be a later stage of the algorithm)"""
+        for s_ in x[1:]:
+            if scaled_floor(s_, "365.25") and any(scaled_floor(z, "30.6001") for z in T.walk(s_)):
+                return False
+        return sum(1 for s_ in x[1:] if scaled_floor(s_, "365.25")) == 1 and sum(1 for s_ in x[1:] if scaled_floor(s_, "30.6001")) == 1
+    cands = [x for x in T.walk(t) if x[0] == "add" and direct(x)]
+    if not cands:
+        rep.inconcl("R-DAYCOUNT", site, "no running day count INT(365.25 x) + INT(30.6001 (m + 1)) + d + ... found")
+        return
+    B = min(cands, key=lambda x: len(T.show(x)))
+    prims = stdlib_prims(repo)
+
+    def jul_ordinal(y, m, d):
+        cum = [0, 31, 59, 90, 120, 151, 181, 212, 243, 273, 304, 334]
+        leap = y % 4 == 0
+        return 365 * (y - 1) + (y - 1) // 4 + cum[m - 1] + (1 if leap and m > 2 else 0) + d + 1721423      # Julian Day Number of the Julian-calendar date
+
+    dates = [(y, m, d, False) for y in range(1583, 1583 + 800) for m in range(1, 13) for d in ((1, 28) if y < 1587 else (1,))]
+    dates += [(y, m, d, True) for y in list(range(1000, 1004)) + [1580, 1581] for m in range(1, 13) for d in (1, 28)]
+    offs = {}
+    n = 0
+    for y, m, d, jul in dates:
+        env = {Y: Fraction(y), M: Fraction(m), D: Fraction(d)}
+        try:
+            b = eval_exact(B, env, prims)
+        except NotEvaluable as e:
+            rep.inconcl("R-DAYCOUNT", site, "day count not executable: %s" % e)
+            return
+        n += 1
+        ref = jul_ordinal(y, m, d) if jul else _dt.date(y, m, d).toordinal() + 1721425
+        offs.setdefault(b - ref, (y, m, d))
+    rep.floor("civil-date classes executed for the Moslem day count", n, 9000)
+    if len(offs) == 1:
+        rep.ok("R-DAYCOUNT", site, "day count == calendar ordinal + const on all %d date classes (Gregorian: month x year mod 400 x 2 cycles; Julian: mod 4)" % n, obligation=True)
+    else:
+        items = sorted(offs.items(), key=lambda kv: kv[1])
+        base = items[0]
+        other = items[1]
+        rep.violation("R-DAYCOUNT", site, "daycount-jump",
+                      "the running day count is not a uniform count of civil days: its offset from the calendar ordinal is %s at %04d-%02d-%02d but %s at %04d-%02d-%02d "
+                      "(%d distinct offsets): two civil days map to one Moslem date / a date is skipped" %
+                      (float(base[0]), base[1][0], base[1][1], base[1][2], float(other[0]), other[1][0], other[1][1], other[1][2], len(offs)),
+                      construct="%04d-%02d-%02d" % other[1], obligation=True)
 
 
 def year_selectors(t):
